@@ -187,13 +187,40 @@ func VerifC12RepeatedHeads() {
 	} else {
 		vstub.Cover("one-head-repeated")
 	}
-	_ = a.Sync(ctx, msg) // must return
+	// optionally some of the listed heads are TAMPERED copies (they pass the
+	// structural and access checks, their content does not hash to the address they
+	// claim): the first, the last, or all of them
+	tampered := vstub.NdChoice("tampered-heads", 4)
+	if tampered > 0 {
+		bad := func(k int) {
+			c := msg[k].Copy()
+			c.SetPayload([]byte("tampered"))
+			msg[k] = c
+		}
+		switch tampered {
+		case 1:
+			bad(0)
+		case 2:
+			bad(len(msg) - 1)
+		case 3:
+			for k := range msg {
+				bad(k)
+			}
+		}
+		vstub.Cover("with-tampered-heads")
+	}
+	_ = a.Sync(ctx, msg) // must return (it may report an error)
 	vstub.WaitIdle()
 	vstub.Cover("abusive-message-handled")
-	for _, e := range chain {
-		vstub.Assert(inLog(a, e), "C12 the genuine entries of an abusive heads message are merged")
+	if tampered == 0 {
+		for _, e := range chain {
+			vstub.Assert(inLog(a, e), "C12 the genuine entries of an abusive heads message are merged")
+		}
+		vstub.Assert(a.OpLog().Len() == len(chain), "C12 an abusive heads message adds each entry once")
 	}
-	vstub.Assert(a.OpLog().Len() == len(chain), "C12 an abusive heads message adds each entry once")
+	for _, e := range a.OpLog().Values().Slice() {
+		vstub.Assert(string(e.GetPayload()) != "tampered", "C12/C04 a tampered head of an abusive message is never merged")
+	}
 	_, later := appendAs(env, l, a.id, w2, []byte("later"))
 	if later == nil {
 		return
